@@ -61,9 +61,11 @@ func classify(err error) string {
 	}
 	m := err.Error()
 	switch {
+	case strings.HasPrefix(m, "transaction ") && strings.Contains(m, " failed to verify: "):
+		return "err:tx" // wraps the inner reason, classify first
 	case errors.Is(err, core.ErrInvalidBlockIndex):
 		return "err:index-future"
-	case strings.Contains(m, "is already on chain") && errors.Is(err, core.ErrAlreadyExists) && !strings.Contains(m, "failed to verify"):
+	case strings.Contains(m, "is already on chain") && errors.Is(err, core.ErrAlreadyExists):
 		return "err:index-old"
 	case errors.Is(err, core.ErrHdrStateRootSetting):
 		return "err:srflag"
@@ -77,17 +79,17 @@ func classify(err error) string {
 		return "err:hdr-index"
 	case errors.Is(err, core.ErrHdrInvalidTimestamp):
 		return "err:timestamp"
-	case strings.Contains(m, "hash mismatch: expected"):
+	case strings.HasPrefix(m, "invalid block: hash mismatch"):
 		return "err:hash-mismatch"
 	case strings.Contains(m, "MerkleRoot mismatch"):
 		return "err:merkle"
-	case strings.Contains(m, "failed to verify"):
-		return "err:tx"
 	case strings.Contains(m, "PrevStateRoot mismatch"), strings.Contains(m, "onPersist failed"), strings.Contains(m, "postPersist failed"),
 		strings.Contains(m, "failed to persist"), strings.Contains(m, "MPT"), strings.Contains(m, "failed to store"):
 		return "err:store"
 	case errors.Is(err, core.ErrWitnessHashMismatch), errors.Is(err, core.ErrInvalidSignature), errors.Is(err, core.ErrVerificationFailed),
-		errors.Is(err, core.ErrInvalidInvocationScript), errors.Is(err, core.ErrInvalidVerificationScript):
+		errors.Is(err, core.ErrInvalidInvocationScript), errors.Is(err, core.ErrInvalidVerificationScript),
+		errors.Is(err, core.ErrUnknownVerificationContract), errors.Is(err, core.ErrNativeContractWitness),
+		errors.Is(err, core.ErrInvalidVerificationContract):
 		return "err:witness"
 	}
 	return "err:other(" + strings.ReplaceAll(m, " ", "_") + ")"
@@ -154,8 +156,10 @@ type vector struct {
 	prev               *hdrInfo // header the candidate names as previous, if known to the node
 	signed             bool     // strictSigned against prev.nc (false if prev unknown)
 	merkleOK           bool
+	cmroot             util.Uint256 // Merkle root computed by the harness over the received tx list
 	txs                []txDesc
-	nextPsrOK, storeOK bool
+	newRoot            util.Uint256 // state root this block produces, when the harness knows it (else zero)
+	storeOK            bool         // execution of the block (storeBlock's persist scripts) can succeed
 }
 
 func (st *state) lookup(known []hdrInfo, h util.Uint256) *hdrInfo {
@@ -167,12 +171,13 @@ func (st *state) lookup(known []hdrInfo, h util.Uint256) *hdrInfo {
 	return nil
 }
 
-func sameTxObjects(a, b []*transaction.Transaction) bool {
+// sameTxObjects: same hashes in the same order (withWit: and the same witnesses).
+func sameTxObjects(a, b []*transaction.Transaction, withWit bool) bool {
 	if len(a) != len(b) {
 		return false
 	}
 	for i := range a {
-		if a[i].Hash() != b[i].Hash() {
+		if a[i].Hash() != b[i].Hash() || withWit && txKey(a[i]) != txKey(b[i]) {
 			return false
 		}
 	}
@@ -195,7 +200,7 @@ func (st *state) rootOnClean(b *block.Block) (util.Uint256, error) {
 }
 
 func (st *state) vectorOf(known []hdrInfo, b *block.Block) vector {
-	v := vector{nextPsrOK: true, storeOK: true}
+	v := vector{storeOK: int(b.PrimaryIndex) < st.v.nvals} // GAS.OnPersist pays validators[PrimaryIndex]
 	switch {
 	case b.Index < st.h+1:
 		v.idxRel = -1
@@ -207,9 +212,18 @@ func (st *state) vectorOf(known []hdrInfo, b *block.Block) vector {
 	if v.prev != nil {
 		v.signed = strictSigned(st.v, v.prev.nc, &b.Header)
 	}
-	v.merkleOK = merkleOf(b.Transactions) == b.MerkleRoot
+	v.cmroot = merkleOf(b.Transactions)
+	v.merkleOK = v.cmroot == b.MerkleRoot
+	// GAS.OnPersist burns the fees of every transaction of the block from its sender, in order;
+	// storeBlock fails if one of them cannot pay (only reachable when the tx loop does not stop the block).
+	spent := map[string]int64{}
 	for _, t := range b.Transactions {
-		v.txs = append(v.txs, st.describeTx(t))
+		d := st.describeTx(t)
+		v.txs = append(v.txs, d)
+		spent[d.sender] += d.fee
+		if spent[d.sender] > st.bal[d.sender] {
+			v.storeOK = false
+		}
 	}
 	return v
 }
@@ -298,9 +312,9 @@ func (st *state) blockLine(op string, known []hdrInfo, b *block.Block, v vector)
 	if len(toks) > 0 {
 		tx = strings.Join(toks, ",")
 	}
-	line = fmt.Sprintf("%s idx=%d sre=%d hash=%s prev=%s ts=%d nc=%s psr=%s wit=%s merkle=%d nextpsr=%d store=%d txs=%s",
+	line = fmt.Sprintf("%s idx=%d sre=%d hash=%s prev=%s ts=%d nc=%s psr=%s wit=%s mroot=%s cmroot=%s newroot=%s store=%d txs=%s",
 		op, hi.idx, b01(b.StateRootEnabled), short(hi.hash), short(hi.prev), hi.ts, short160(hi.nc), short(hi.psr), hi.wit,
-		b01(v.merkleOK), b01(v.nextPsrOK), b01(v.storeOK), tx)
+		short(b.MerkleRoot), short(v.cmroot), short(v.newRoot), b01(v.storeOK), tx)
 	return
 }
 
@@ -417,15 +431,15 @@ func runCase(o *hx.Out, k int, st *state, cd *cand, r *prng.R) {
 		}
 		v := st.vectorOf(known, b)
 		headerKnown := b.Index <= st.h+uint32(spec.ahead) // else-branch of AddBlock
-		sameList := sameTxObjects(b.Transactions, st.next.Transactions)
-		if spec.k.sr && spec.ahead >= 2 && b.Index == st.h+1 {
-			switch {
-			case sameList:
-				v.nextPsrOK = st.future[0].PrevStateRoot == st.roots[st.h+1]
-			case b.Hash() == st.next.Hash():
-				if rt, err := st.rootOnClean(b); err == nil {
-					v.nextPsrOK = st.future[0].PrevStateRoot == rt
-				}
+		sameList := sameTxObjects(b.Transactions, st.next.Transactions, false)
+		identical := sameTxObjects(b.Transactions, st.next.Transactions, true) && witID(&b.Script) == witID(&st.next.Script)
+		switch {
+		case sameList:
+			v.newRoot = st.roots[st.h+1]
+		case spec.k.sr && spec.ahead >= 2 && b.Hash() == st.next.Hash():
+			// only then can a different tx list meet the next-header check of storeBlock
+			if rt, err := st.rootOnClean(b); err == nil {
+				v.newRoot = rt
 			}
 		}
 		res, before, after, err := attempt(o, k, st, c, known, b, v, "first")
@@ -474,15 +488,38 @@ func runCase(o *hx.Out, k int, st *state, cd *cand, r *prng.R) {
 					}
 					if ok, why := st.mutuallyCompatible(v.txs); !ok {
 						key := "accepted-incompatible:" + why
+						if why == "in-block-conflict" {
+							key = "inblock-conflict-accepted"
+						}
 						fail(key, "accepted with mutually incompatible transactions (%s)", why)
 					}
 				}
 			}
-			if b.Hash() == st.next.Hash() && !spec.badNextPsr {
+			// every transaction of an accepted block must be retrievable afterwards
+			for _, t := range b.Transactions {
+				if _, _, e := c.bc.GetTransaction(t.Hash()); e != nil {
+					if !spec.k.vt || spec.k.skip {
+						o.Count("accepted-unverified:tx-record-lost") // transactions are not verified by configuration
+						break
+					}
+					key := "accepted-tx-record-lost"
+					if ok, why := st.mutuallyCompatible(v.txs); !ok && why == "in-block-conflict" {
+						key = "inblock-conflict-accepted" // the later tx's conflict stub overwrote the earlier tx's record
+					}
+					fail(key, "transaction %s of the accepted block cannot be read back: %v", short(t.Hash()), e)
+					break
+				}
+			}
+			// block identity is the hash: the same hash must give the same state
+			if b.Hash() == st.next.Hash() && !spec.badNextPsr && !spec.k.skip {
 				if after.root != st.refRoot {
-					fail("same-hash-different-state", "accepted block has the valid block's hash %s but the state root is %s, not %s (tx list %d vs %d)",
-						short(b.Hash()), short(after.root), short(st.refRoot), len(b.Transactions), len(st.next.Transactions))
-				} else if sameList && sameHashes(after.pool, st.refPool) && witID(&b.Script) == witID(&st.next.Script) && after.dbDigest != st.refDigest {
+					key := "same-hash-different-state"
+					if ok, why := st.mutuallyCompatible(v.txs); !ok && why == "duplicate" {
+						key = "dup-tx-same-hash-accepted"
+					}
+					fail(key, "accepted block has the valid block's hash %s but the state root is %s, not %s (tx list %d vs %d, VerifyTransactions=%v)",
+						short(b.Hash()), short(after.root), short(st.refRoot), len(b.Transactions), len(st.next.Transactions), spec.k.vt)
+				} else if identical && sameHashes(after.pool, st.refPool) && after.dbDigest != st.refDigest {
 					fail("nondeterministic-db", "same block, same state, different database digest %s vs %s", after.dbDigest, st.refDigest)
 				}
 				if sameList && !sameHashes(after.pool, st.refPool) {
@@ -510,6 +547,10 @@ func runCase(o *hx.Out, k int, st *state, cd *cand, r *prng.R) {
 				linked := b.PrevHash == last.hash && b.Index == last.idx+1 && b.Timestamp > last.ts && strictSigned(st.v, last.nc, &b.Header)
 				hdrOnly := len(add) == 1 && len(chg) == 1 && len(rem) == 0 && after.hh == before.hh+1 && after.htip == b.Hash()
 				switch {
+				case spec.k.skip && hdrOnly:
+					// SkipBlockVerification: headers are recorded unverified by configuration
+					o.Count("rejected:header-recorded-unverified(skip)")
+					recordedOther = recordedOther || b.Hash() != st.next.Hash()
 				case !hdrOnly:
 					fail("rejected-db-changed", "database changed by a rejected block: +%v ~%v -%v, header height %d->%d (%v)", add, chg, rem, before.hh, after.hh, err)
 				case !linked:
@@ -533,9 +574,7 @@ func runCase(o *hx.Out, k int, st *state, cd *cand, r *prng.R) {
 	// ---- the correct block afterwards -------------------------------------------------------
 	b := mkBlock(fieldsOf(&st.next.Header), st.next.Transactions)
 	v := st.vectorOf(known, b)
-	if spec.k.sr && spec.ahead >= 2 {
-		v.nextPsrOK = st.future[0].PrevStateRoot == st.roots[st.h+1]
-	}
+	v.newRoot = st.roots[st.h+1]
 	res, _, after, err := attempt(o, k, st, c, known, b, v, "then-valid")
 	if recordedOther || spec.badNextPsr {
 		o.Count("then-valid:not-demanded")
